@@ -1,5 +1,6 @@
 --------------------------- MODULE GenericsTrace ---------------------------
 (* {"e":"unify","params":[terms],"args":[terms],"accepted":bool}   acceptance of a call of a generic function by parser.Parse
+   {"e":"unifyany","alts":[[terms]...],"args":[terms],"accepted":bool}
    {"e":"inst","a":[terms],"b":[terms],"same":bool}                 a value of K<a> is accepted where K<b> is required         *)
 EXTENDS Generics, TLC, Json
 CONSTANT TraceFile
@@ -7,8 +8,10 @@ VARIABLES l, bad
 Trace == ndJsonDeserialize(TraceFile)
 Init == l = 1 /\ bad = {}
 Un == Trace[l].e = "unify" /\ bad' = (IF Trace[l].accepted = Unifies(Trace[l].params, Trace[l].args) THEN bad ELSE bad \cup {l})
+\* several generic declarations behind one alias: the call is well typed iff one of them unifies
+UnAny == Trace[l].e = "unifyany" /\ bad' = (IF Trace[l].accepted = (\E i \in 1..Len(Trace[l].alts) : Unifies(Trace[l].alts[i], Trace[l].args)) THEN bad ELSE bad \cup {l})
 In == Trace[l].e = "inst" /\ bad' = (IF Trace[l].same = SameInstantiation(Trace[l].a, Trace[l].b) THEN bad ELSE bad \cup {l})
-Next == l <= Len(Trace) /\ l' = l + 1 /\ (Un \/ In)
+Next == l <= Len(Trace) /\ l' = l + 1 /\ (Un \/ UnAny \/ In)
 Spec == Init /\ [][Next]_<<l, bad>>
 Done == l = Len(Trace) + 1
 Report == Done => PrintT(<<"@@bad@@", bad>>) /\ PrintT(<<"@@lines@@", Len(Trace)>>)
